@@ -50,7 +50,9 @@ def compile_trs_unpacker_regex(
         rf"(?P<sec>{sec_rgx}"
         rf"|{err_sec}|{undef_sec})?"
     )
-    rgx = re.compile(pattern, re.VERBOSE)
+    # Case-insensitive, because `trs_to_dict()` enforces lowercase before
+    # matching (whereas the error placeholders contain uppercase).
+    rgx = re.compile(pattern, re.VERBOSE | re.IGNORECASE)
     return rgx
 
 
@@ -495,8 +497,8 @@ class TRS:
             pass
         if isinstance(twp, int):
             twp = f'{twp}{ns.lower()}'
-        if twp != MC._UNDEF_TWP and re.search(rf"\b{TRS._TWP_RGX}\b", twp) is None:
-            # Couch the pattern in '\b' to ensure we match the entire str.
+        if twp != MC._UNDEF_TWP and re.fullmatch(TRS._TWP_RGX, twp) is None:
+            # Use fullmatch to ensure we match the entire str.
             twp = MC._ERR_TWP
 
         if rge in [None, '']:
@@ -508,14 +510,14 @@ class TRS:
             pass
         if isinstance(rge, int):
             rge = f"{rge}{ew.lower()}"
-        if rge != MC._UNDEF_RGE and re.search(rf"\b{TRS._RGE_RGX}\b", rge) is None:
+        if rge != MC._UNDEF_RGE and re.fullmatch(TRS._RGE_RGX, rge) is None:
             rge = MC._ERR_RGE
 
         if sec in ('', None):
             sec = MC._UNDEF_SEC
         else:
             sec = str(sec).rjust(2, '0')
-        if sec != MC._UNDEF_SEC and re.search(rf"\b{TRS._SEC_RGX}\b", sec) is None:
+        if sec != MC._UNDEF_SEC and re.fullmatch(TRS._SEC_RGX, sec) is None:
             sec = MC._ERR_SEC
 
         return f"{twp}{rge}{sec}"
@@ -596,7 +598,7 @@ class TRS:
 
         # Enforce lowercase to match pyTRS standard.
         trs = str(trs).lower()
-        mo = TRS._TRS_UNPACKER_REGEX.search(trs)
+        mo = TRS._TRS_UNPACKER_REGEX.fullmatch(trs)
         if not mo:
             return dct
 
